@@ -334,12 +334,14 @@ def cost_block(rng, enduse=1, ptype=1):
         c.append(['Total O&M Cost', _round(rng.uniform(0.1, 20), 4)])
     if rng.random() < 0.2:
         c.append(['All-in Vertical Drilling Costs', _round(rng.uniform(300, 4000), 4)])
+    # (a third of the user-supplied figures equal the parameter's declared default, 5 / 1 / 5, which is not the working value:
+    # that is the -1 "use the correlation" sentinel)
     if enduse == 2 and ptype == 5 and rng.random() < 0.5:
-        c.append(['Absorption Chiller Capital Cost', _round(rng.uniform(0.5, 20), 3)])
+        c.append(['Absorption Chiller Capital Cost', rng.choice([5, _round(rng.uniform(0.5, 20), 3), _round(rng.uniform(0.5, 20), 3)])])
         if rng.random() < 0.5:
-            c.append(['Absorption Chiller O&M Cost', _round(rng.uniform(0.05, 2), 3)])
+            c.append(['Absorption Chiller O&M Cost', rng.choice([1, _round(rng.uniform(0.05, 2), 3), _round(rng.uniform(0.05, 2), 3)])])
     if enduse == 2 and ptype == 6 and rng.random() < 0.5:
-        c.append(['Heat Pump Capital Cost', _round(rng.uniform(0.5, 20), 3)])
+        c.append(['Heat Pump Capital Cost', rng.choice([5, _round(rng.uniform(0.5, 20), 3), _round(rng.uniform(0.5, 20), 3)])])
     if enduse == 2 and ptype == 7 and rng.random() < 0.4:
         c.append(['District Heating O&M Cost', _round(rng.uniform(0.05, 3), 3)])
     if enduse > 2 and rng.random() < 0.3:
@@ -577,6 +579,13 @@ def sbt_case(rng, name, k=0):
             cset(case, kk, v)
     for kk, v in price_block(rng, life):
         cset(case, kk, v)
+    # extensions that change the energy sold after the plant calculation: add-ons (single construction year: see synth_case)
+    # and S-DAC-GT
+    if k % 4 == 2:
+        case += addon_block(rng)
+        cset(case, 'Construction Years', 1)
+    elif k % 4 == 3:
+        case += sdac_block(rng)
     return case, raw
 
 
